@@ -169,7 +169,7 @@ def _c(rows, idname="ID", unsorted=False, **cols):
 
 def corpus_cases():
     return [
-        # F11: row label 0 special case — two identical individuals, different dose ids
+        # F11 (fixed 183fc9b): two identical individuals get identical dose ids
         _c([(1, 0, 10), (1, 0, 0), (1, 1, 0), (2, 0, 10), (2, 0, 0), (2, 1, 0)]),
         # tie spanning two reset groups: observation decremented twice
         _c([(1, 0, 10, 1), (1, 5, 0, 0), (1, 5, 10, 1), (1, 5, 0, 0), (1, 5, 0, 3), (1, 5, 0, 0)], evid=True),
@@ -177,7 +177,7 @@ def corpus_cases():
         _c([(1, 0, 10, 1), (1, 1, 10, 1), (1, 0, 0, 3), (1, 0, 10, 1), (1, 1, 0, 0), (1, 1, 0, 0)], evid=True),
         # record between two doses at one time stamp
         _c([(1, 0, 10), (1, 5, 10), (1, 5, 0), (1, 5, 10), (1, 6, 0)]),
-        # id column not named ID, with an event column
+        # id column not named ID, with an event column (fixed 85d179e)
         _c([(1, 0, 10, 1), (1, 0, 0, 0), (1, 1, 0, 0)], idname="SUBJ", evid=True),
         # ids not ascending: add_time_after_dose reorders the individuals
         _c([(2, 0, 10), (2, 1, 0), (1, 0, 10), (1, 1, 0)]),
@@ -480,18 +480,15 @@ def run_case(case, drv):
                         if not np.allclose(kk[c].to_numpy(dtype="float64"), orig[c].to_numpy(dtype="float64"), rtol=1e-12, atol=0):
                             mon.append({"cls": "expand-changes-values", "what": f"column {c} of an original record changed"})
                             break
-                    # order: within one individual and reset group, original records keep their order when chronological
+                    # order: the original records of one individual keep their order (chronological within each
+                    # reset group; reset groups follow each other in record order)
                     if is_chrono_rg:
-                        rgs = rg_list(rows, cols)
                         pos = {lab: p for p, lab in enumerate(kl)}
-                        for a in range(n):
-                            for b in range(a + 1, n):
-                                if rows[a].id == rows[b].id and rgs[a] == rgs[b] and pos[a] > pos[b]:
-                                    mon.append({"cls": "expand-reorders-within-individual", "what": f"records {a},{b} swapped"})
-                                    break
-                            else:
-                                continue
-                            break
+                        bad = next(((a, b) for a in range(n) for b in range(a + 1, n)
+                                    if rows[a].id == rows[b].id and pos[a] > pos[b]), None)
+                        if bad:
+                            mon.append({"cls": "expand-reorders-within-individual", "what": f"original records {bad[0]} and "
+                                        f"{bad[1]} of individual {rows[bad[0]].id} come back in the opposite order: {kl}"})
                 # total administered amount
                 tot = Fraction(0)
                 for r in rows:
@@ -502,14 +499,13 @@ def run_case(case, drv):
                 # against the reference expansion (times of additional doses, chronological order)
                 refx = py_expand(rows, cols)
                 if is_chrono_rg:
-                    # per individual and reset group: same records, same times, chronological (stable) order;
-                    # the relative order of different individuals / reset groups is not judged
-                    rgs = rg_list(rows, cols)
+                    # per individual: same records, same times, in the order reset group by reset group,
+                    # chronological (stable) within each; the relative order of different individuals is not judged
                     code_g, ref_g = {}, {}
                     for lab, tm, ex_ in zip(labs, times, expd):
-                        code_g.setdefault((rows[lab].id, rgs[lab]), []).append((lab, tm, ex_))
+                        code_g.setdefault(rows[lab].id, []).append((lab, tm, ex_))
                     for x in refx:
-                        ref_g.setdefault((x[0], x[1]), []).append((x[3], x[2], x[4]))
+                        ref_g.setdefault(x[0], []).append((x[3], x[2], x[4]))
                     same = code_g.keys() == ref_g.keys() and all(
                         [(a, c) for a, _, c in code_g[key]] == [(a, c) for a, _, c in ref_g[key]]
                         and all(close(b, y[1]) for (_, b, _), y in zip(code_g[key], ref_g[key])) for key in ref_g)
@@ -553,19 +549,21 @@ def run_case(case, drv):
                         break
                 if list(t.columns) != list(orig.columns) + ["TAD"]:
                     mon.append({"cls": "tad-changes-columns", "what": f"columns {list(t.columns)}"})
-                # pharmpy's own dose ids of the (expanded) records explain the order it returns:
-                # individuals ascending, each stable-sorted by dose id, expanded records dropped
-                code_x = ex_labs = ex_exp = None
+                # reference expansion (independent of expand_additional_doses), the walk on it, and pharmpy's
+                # get_doseid on it: the latter explains the order add_time_after_dose returns (individuals
+                # ascending, each stable-sorted by dose id, expanded records dropped) and delimits the known
+                # get_doseid classes
+                refx = py_expand(rows, cols) if cols["addl"] else [(r.id, 0, r.time, r.lab, False, r) for r in rows]
+                xr = [XRec(i, tm, r, lab, e_) for (i, g, tm, lab, e_, r) in refx]
+                code_x = None
                 if cols["addl"]:
-                    okx, exm = call(lambda: _expanded_model(model))
-                    if okx:
-                        okd, resd = call(lambda: data.get_doseid(exm))
-                        if okd:
-                            code_x = [int(v) for v in resd.tolist()]
-                            ex_labs = [int(v) for v in exm.dataset["ROWLAB"].tolist()]
-                            ex_exp = [bool(v) for v in exm.dataset["EXPANDED"].tolist()]
+                    okd, resd = call(lambda: data.get_doseid(_ref_model(xr, cols, idn)))
+                    if okd:
+                        code_x = [int(v) for v in resd.tolist()]
                 elif code_doseid is not None:
-                    code_x, ex_labs, ex_exp = code_doseid, list(range(n)), [False] * n
+                    code_x = code_doseid
+                ex_labs = [x.lab for x in xr]
+                ex_exp = [x.exp for x in xr]
                 if labs != list(range(n)):
                     expected = None
                     if code_x is not None:
@@ -606,18 +604,10 @@ def run_case(case, drv):
                             cls = "tad-negative-addl-past-reset" if cols["addl"] and past else "tad-negative"
                             mon.append({"cls": cls, "what": f"TAD {bylab[r.lab]} at record {r.lab}"})
                             break
-                # against the walk: time since the dose that opened the record's dose period (walk dose ids
-                # on the chronologically expanded records); judged where get_doseid itself agrees with the walk
-                if is_chrono and (exp_ok or not cols["addl"]):
-                    refx = py_expand(rows, cols) if cols["addl"] else [(r.id, 0, r.time, r.lab, False, r) for r in rows]
-
-                    class X:
-                        pass
-                    xr = []
-                    for (i, g, tm, lab, e_, r) in refx:
-                        x = X()
-                        x.id, x.time, x.amt, x.evid, x.ss, x.lab, x.exp = i, tm, r.amt, r.evid, r.ss, lab, e_
-                        xr.append(x)
+                # against the walk: time since the record that opened the record's dose period (walk dose ids on
+                # the reference expansion; reset groups one after the other, clocks may restart); judged wherever
+                # get_doseid itself agrees with the walk on the reference expansion
+                if is_chrono_rg:
                     wd = walk_doseid(xr, cols)
                     first = {}
                     reft = {}
@@ -625,13 +615,13 @@ def run_case(case, drv):
                         first.setdefault((x.id, d), x.time)
                         if not x.exp:
                             reft[x.lab] = x.time - first[(x.id, d)]
-                    x_chrono = chrono(xr)
-                    if x_chrono and code_x == wd and ex_labs == [x.lab for x in xr]:
-                        tags.append("tad-vs-walk")
+                    if code_x == wd:
+                        tags.append("tad-vs-walk" + ("-restart" if not is_chrono else ""))
                         for r in rows:
                             if not close(bylab[r.lab], reft[r.lab]):
                                 mon.append({"cls": "tad-walk-mismatch", "what": f"TAD of record {r.lab}: code {bylab[r.lab]}, "
-                                            f"walk {float(reft[r.lab])}"})
+                                            f"walk {float(reft[r.lab])}; code {[bylab[q.lab] for q in rows]} walk "
+                                            f"{[float(reft[q.lab]) for q in rows]}"})
                                 break
 
     # ------------------------------------------------ get_mdv / get_evid / observations / doses / counts
@@ -759,6 +749,28 @@ def run_case(case, drv):
     return {"k": k, "mon": mon, "tags": tags, "nontrivial": nontrivial}
 
 
-def _expanded_model(model):
-    """the model add_time_after_dose derives its dose ids from (ADDL case)"""
-    return data.expand_additional_doses(model, flag=True)
+class XRec:
+    """a record of the reference expansion"""
+    __slots__ = ("id", "time", "amt", "evid", "ss", "lab", "exp")
+
+    def __init__(self, i, tm, r, lab, e_):
+        self.id, self.time, self.amt, self.evid, self.ss, self.lab, self.exp = i, tm, r.amt, r.evid, r.ss, lab, e_
+
+
+def _ref_model(xr, cols, idn):
+    """a model whose dataset is the reference expansion (no ADDL/II columns)"""
+    d = {idn: np.array([x.id for x in xr], dtype="int64"),
+         "TIME": np.array([float(x.time) for x in xr], dtype="float64"),
+         "AMT": np.array([float(x.amt) for x in xr], dtype="float64"),
+         "DV": np.zeros(len(xr))}
+    types = {idn: "id", "TIME": "idv", "AMT": "dose", "DV": "dv"}
+    if cols["evid"]:
+        d["EVID"] = np.array([x.evid for x in xr], dtype="int64")
+        types["EVID"] = "event"
+    if cols["ss"]:
+        d["SS"] = np.array([x.ss for x in xr], dtype="int64")
+        types["SS"] = "ss"
+    df = pd.DataFrame(d)
+    ci = [ColumnInfo.create(c, type=types[c], datatype="float64" if df[c].dtype == np.float64 else "int32")
+          for c in df.columns]
+    return Model.create(name="c14ref", dataset=df, datainfo=DataInfo.create(ci))
